@@ -160,6 +160,8 @@ def decoderOf (rtype : Sx) (groups : Sx) : Decoder :=
 def parseGroups : Sx → Option (List (Bool × List Msg))
   | .list (.atom "groups" :: gs) => gs.mapM fun g => match g with
     | Sx.list (Sx.atom "g" :: Sx.atom c :: fs) => do
+      -- `(cuts n*)`: in which pieces the peer writes the group — of no concern to the model
+      let fs := fs.filter fun f => match f with | Sx.list (Sx.atom "cuts" :: _) => false | _ => true
       let fs ← (fs.map stripTyped).mapM parseFrame
       pure (c == "t", fs.flatten)
     | _ => none
